@@ -360,11 +360,17 @@ func check(prop, tier string) int {
 	e.solveAll(all)
 	findings := loadFindings()
 	known := map[string]finding{}
+	// obligations of shared functions that are recorded as a known finding of ANOTHER property: the finding is reported
+	// by that property's check; here the obligation is left out (named in the evidence), not raised again
+	elsewhere := map[string]finding{}
 	for _, f := range findings {
 		if f.Kind == "finding" && f.Prop == prop {
 			known[f.Obl] = f
+		} else if f.Kind == "finding" {
+			elsewhere[f.Obl] = f
 		}
 	}
+	var reportedElsewhere []string
 	os.MkdirAll(filepath.Join(verifDir, "out", "replay"), 0o755)
 	var deadReturns []string
 	var nObl, nDis, nCover, nCoverOK, nCoverGround, nCoverUndecided, nBounded, nBoundedOK, violations int
@@ -405,6 +411,12 @@ func check(prop, tier string) int {
 				failed = append(failed, o)
 			}
 			continue
+		}
+		if f, other := elsewhere[o.Name]; other {
+			if _, mine := known[o.Name]; !mine {
+				reportedElsewhere = append(reportedElsewhere, o.Name+" (known finding of "+f.Prop+")")
+				continue
+			}
 		}
 		if _, isKnown := known[o.Name]; isKnown {
 			if !o.ok() {
@@ -489,6 +501,7 @@ func check(prop, tier string) int {
 			"explanation":  "Every obligation is generated from the current /repo working tree (go/packages, -tags verif) for the functions listed in functions_under_contract and must be unsat (valid) in one of the SMT solvers; cover obligations must be sat.",
 			"functions_under_contract": funcs,
 			"unreachable_return_sites": deadReturns,
+			"obligations_reported_by_another_property": reportedElsewhere,
 			"cover_obligations":        map[string]int{"total": nCover, "sat": nCoverOK, "sat_quantifier_free_part_only": nCoverGround, "undecided": nCoverUndecided},
 			"bounded":                  map[string]int{"total": nBounded, "discharged": nBoundedOK},
 			"discharged_by_solver":     bySolver,
